@@ -90,6 +90,101 @@ def lanes(chk, db, rule):
         chk.unanalysable(rule, 'nop/utility/constexpr_buffer_writer.h', 'WriteElement widths analysed: %s, need 1,2,4,8' % sorted(w for w in widths if w))
 
 
+def fd_ownership(chk, db, rule):
+    """FdReader / FdWriter own their descriptor: abstract execution (nopsa/absx.py) of every lifecycle member over
+    {empty, owning} x {other empty, other owning} x {self}, recording ::close(fd): an owned descriptor is closed exactly
+    once (destructor / Clear / being move-assigned over), never after Release or after having been moved away, and two
+    objects never end up owning the same descriptor (a second close would hit whatever the process opened meanwhile)."""
+    from .. import absx
+    chk.rule(rule, 'fd reader/writer: the owned descriptor is closed exactly once; never after Release / move-away; never shared', minimum=8)
+    EMPTY = -1
+    for q in ('nop::FdReader', 'nop::FdWriter'):
+        fns = [f for f in db.fns if f.get('rec') == q and ('body' in f or f.get('inits'))]
+        r = db.records.get(q)
+        if not fns or r is None:
+            chk.unanalysable(rule, q, 'no instance of %s members' % q)
+            continue
+        fdf = [x['n'] for x in r['fields'] if x['t'] == 'int']
+        if len(fdf) != 1:
+            chk.unanalysable(rule, q, 'cannot identify the descriptor field of %s' % q)
+            continue
+        fd = fdf[0]
+        closed = []
+
+        def close_hook(it, fr, e, obj, args, closed=closed):
+            if obj is None and args:
+                v = args[0]
+                v = it.read(v, fr, e) if isinstance(v, absx.Loc) else v
+                closed.append(v)
+                return 0
+            return NotImplemented
+        life = [f for f in fns if f.get('ctor') or f.get('dtor') or f['n'] in ('operator=', 'Clear', 'Release')]
+        for f in life:
+            if f.get('copyctor') or f.get('copyassign'):
+                continue
+            where = '%s:%d %s' % (f['file'], f['pat']['l'], fn_sig(f))
+            why = []
+            n = 0
+            takes_other = any(p.get('rec') == q for p in f['params'])
+            for a in ([None] if f.get('ctor') else [EMPTY, 7]):
+                for b in ([EMPTY, 8] if takes_other else [EMPTY]):
+                    for alias in ([False, True] if takes_other and not f.get('ctor') else [False]):
+                        w = absx.World(db)
+                        w.declare(('A',), q)
+                        w.declare(('B',), q)
+                        w.cells[('A', fd)] = a if a is not None else EMPTY
+                        w.cells[('B', fd)] = b
+                        del closed[:]
+                        args = []
+                        for p_ in f['params']:
+                            if p_.get('rec') == q:
+                                args.append(absx.Loc(('A',) if alias else ('B',)))
+                            elif p_.get('integral'):
+                                args.append(9)
+                            else:
+                                args.append(absx.UNKNOWN)
+                        it = absx.Interp(w, hooks={'close': close_hook})
+                        try:
+                            rv = it.run(f, ('A',), args, None)
+                            if not f.get('dtor'):
+                                # both objects are destroyed afterwards: the complete history of each descriptor
+                                dt = [g for g in fns if g.get('dtor')]
+                                if dt:
+                                    it.run(dt[0], ('A',), [], None)
+                                    if takes_other and not alias:
+                                        it.run(dt[0], ('B',), [], None)
+                        except absx.Unsupported as e:
+                            chk.unanalysable(rule, where, str(e))
+                            why = None
+                            break
+                        n += 1
+                        real = [c for c in closed if c != EMPTY]
+                        ctx = '%s with this=%s other=%s%s' % (fn_sig(f), a, b, ' (self)' if alias else '')
+                        if len(real) != len(set(real)):
+                            why.append('%s followed by the destructors closes %s: a descriptor is closed twice' % (ctx, real))
+                        owned = {v for v in (a, b if takes_other and not alias else EMPTY, 9 if f.get('ctor') and f['params'] and f['params'][0].get('integral') else EMPTY)
+                                 if v not in (EMPTY, None)}
+                        if f['n'] == 'Release':
+                            owned.discard(a)
+                            rvv = it.read(rv, absx.Frame(f, ('A',)), None) if isinstance(rv, absx.Loc) else rv
+                            if rvv != a:
+                                why.append('%s returns %s' % (ctx, rvv))
+                        if set(real) != owned:
+                            why.append('%s followed by the destructors closes %s, the descriptors owned were %s' % (ctx, sorted(real), sorted(owned)))
+                    if why is None:
+                        break
+                if why is None:
+                    break
+            if why is None:
+                continue
+            chk.decide(not why, rule, where, '%s::%s: %s' % (q.replace('nop::', ''), fn_sig(f), '; '.join(sorted(set(why))[:3]) if why else
+                                                              '%d ownership histories, every owned descriptor closed exactly once' % n), function=ir.fn_label(f))
+
+
+def fn_sig(fn):
+    return '%s(%s)' % (fn['n'], ', '.join(p['t'].replace('nop::', '')[:40] for p in fn['params']))
+
+
 def inventory(chk, db, rule):
     need_r = {('Ensure', 1), ('Read', 1), ('Read', 2), ('Skip', 1)}
     need_w = {('Prepare', 1), ('Write', 1), ('Write', 2), ('Skip', 2)}
@@ -136,6 +231,7 @@ def rules(chk, db):
     rwrules.check_stream_class(chk, db, 'nop::StreamWriter', 'writer', 'ST', 'SS')
     rwrules.check_fd_class(chk, db, 'nop::FdReader', 'reader', 'FD')
     rwrules.check_fd_class(chk, db, 'nop::FdWriter', 'writer', 'FD')
+    fd_ownership(chk, db, 'OWN')
     from . import c16
     c16.rules(chk, db, prefix='B.')
     lanes(chk, db, 'L')
